@@ -174,7 +174,7 @@ def run(ctx):
                 srv = P.new_ssh2_server(dict(banner=p['banner'].encode(), kex=p['kex'], key=p['key'], enc=p['enc'], mac=p['mac'], hostkeys=hk, gex=lambda a, b, c: max(a, min(c, 4096))))
                 try:
                     r = []
-                    for opts in (['-n'], ['-j'], ['-n', '-b', '-v', '-l', 'warn']):
+                    for opts in (['-n'], ['-j'], ['-n', '-b', '-v', '-l', 'warn'], ['-v', '-j'], ['-b', '-v', '-jj', '-l', 'fail']):
                         r.append(z.run(opts + ['--skip-rate-test', '-t', '2', '127.0.0.1:%d' % srv.port], timeout=60))
                     return [(x['rc'], x['out'].replace(str(srv.port), 'PORT')) for x in r]
                 finally:
@@ -188,9 +188,17 @@ def run(ctx):
                 if outs[s][i][k] != outs[seeds[0]][i][k]:
                     ctx.violation('not-repeatable/' + name, '%s output differs between PYTHONHASHSEED=%d and %d' % (name, seeds[0], s), {'op': 'cli', 'peer': reportfam.jsonable_peer(p)})
         try:
-            canon.load_json(outs[seeds[0]][i][1][1])
+            j0 = canon.load_json(outs[seeds[0]][i][1][1])
         except canon.CanonError as e:
             ctx.violation('cli-json-malformed', str(e), {'op': 'cli', 'peer': reportfam.jsonable_peer(p)})
+            j0 = None
+        for k, o in ((3, '-v -j'), (4, '-b -v -jj -l fail')):     # every option combination of the quantifier: stdout is still one JSON document, the same one
+            try:
+                jk = canon.load_json(outs[seeds[0]][i][k][1])
+                if j0 is not None and jk != j0:
+                    ctx.violation('cli-json-differs/' + o, 'the JSON document printed with %s differs from the one printed with -j' % o, {'op': 'cli', 'opts': o, 'peer': reportfam.jsonable_peer(p)})
+            except canon.CanonError as e:
+                ctx.violation('cli-json-malformed/' + o, '%s: %s' % (o, e), {'op': 'cli', 'opts': o, 'peer': reportfam.jsonable_peer(p)})
         vw = outs[seeds[0]][i][2][1].split('\n')
         if vw and vw[0] == '':
             ctx.violation('blank-line-from-immediate-write', "with -b -v -l warn the filtered 'Starting audit' line is printed as an empty line (a line added by raising the level)", {'op': 'cli', 'opts': '-n -b -v -l warn', 'peer': reportfam.jsonable_peer(p)})
